@@ -741,7 +741,7 @@ def case_strategy(draw, tier="quick"):
     col("pe", "pe", '-LA("e-")')
     col("mu", "mol", "MU")
     col("tc", "lin", "TC")
-    col("pressure", "lin", "PRESSURE")
+    col("pressure", "gasp", "PRESSURE")
     col("water", "mol", 'TOT("water")')
     col("cb", "cb", "CHARGE_BALANCE")
     col("alk", "mol", "ALK")
@@ -760,7 +760,7 @@ def case_strategy(draw, tier="quick"):
     for g in gas_names:
         col("g_" + g, "mol", 'GAS("%s")' % g)
     if gas_names:
-        col("gas_p", "lin", "GAS_P")
+        col("gas_p", "gasp", "GAS_P")
         col("gas_vm", "lin", "GAS_VM")
     for r in kin_rates:
         col("k_" + r, "mol", 'KIN("%s")' % r)
